@@ -31,6 +31,7 @@ func c16(tier string) []*explore.Scenario {
 	for _, pre := range []bool{false, true} {
 		out = append(out, c16RPC("2unary", pre, bound), c16RPC("unary+stream", pre, bound), c16RPC("2streams", pre, bound-0))
 	}
+	out = append(out, c16RPC("early-return", true, bound), c16RPC("early-return", false, bound-1))
 	out = append(out, c16RPC("payloads", true, 0))
 	out = append(out, c16Burst(12, 0), c16Burst(50, 0), c16Burst(24, 1))
 	return out
@@ -219,6 +220,11 @@ func c16RPCFam(prop, load string, preAttach bool, bound int) *explore.Scenario {
 			case "2streams":
 				stream(0, "s0", pp)
 				stream(1, "s1", streamCase{"SStream", "sendall", "burst", 1, 2, 0})
+			case "early-return":
+				// the handler returns while its caller is still sending: the server's
+				// resets for the late messages travel back through the proxy
+				stream(0, "s0", streamCase{"Bidi", "sendall", "retearly", 3, 1, 0})
+				unary(1, "u1", "x")
 			case "payloads":
 				vsched.Explore(false)
 				for i, sz := range []int{0, 1, 127, 128, 1023, 1024, 16384, 65536} {
